@@ -28,6 +28,9 @@ def run(ctx):
     pool = [c for c in msgev.boundary_cases(msgev.world()["schema"]) if quick is False or hash(repr(c["val"])) % 3 == 0]
     c02.run_legalenc(ctx, msgev.world()["schema"], pool, (0, 0, 0, 6, 0), False, invariants=("DecoderInsensitive", "CanonicalRoundTrip"))
     cs = cases(ctx, quick)
+    # the same boundary family on the classes the real plugin generates for this schema (its field metadata takes part)
+    msgev.gen_world()
+    cs += msgev.as_generated([c for k, c in enumerate(msgev.boundary_cases(msgev.world()["schema"])) if not quick or k % 2 == 0])
     for c in cs:
         ctx.count_case((c["ty"], repr(c["val"])), msgev.nontrivial(c))
     events = ctx.pmap(msgev.rt_event, cs)
@@ -42,4 +45,6 @@ def run(ctx):
 
 
 def redrive(ev):
-    return msgev.rt_event({"ty": ev["ty"], "val": ev["val"], "tag": ev.get("case", {}).get("tag", "")})
+    if ev.get("case", {}).get("world") == "gen":
+        msgev.gen_world()
+    return msgev.rt_event({"ty": ev["ty"], "val": ev["val"], "tag": ev.get("case", {}).get("tag", ""), "world": ev.get("case", {}).get("world", "dyn")})
